@@ -211,7 +211,10 @@ def m_last(ctx):
 def m_get(ctx):
     S = ctx.S
     v, ref = seq_of(ctx, ctx.args[0])
-    idx = scalar_arg(ctx, ctx.args[1])
+    a1 = ctx.args[1]
+    if isinstance(a1, Struct) and a1.path.startswith("core::ops::range::"):
+        return get_range(ctx, v, a1)
+    idx = scalar_arg(ctx, a1)
     if idx is None:
         return ctx.top_ret()
     ln = len_sym(ctx, v)
@@ -222,6 +225,68 @@ def m_get(ctx):
     if S.entails(d.scale(-1)):
         return none()
     return option(r, Delta({}, [d.addc(1)]), Delta({}, [d.scale(-1)]))
+
+
+def get_range(ctx, v, rng):
+    """`slice.get(range)`: Some(sub-slice) exactly when the range is in bounds, else None."""
+    S = ctx.S
+    ln = S.term(len_sym(ctx, v))
+    f = rng.fields
+    p = rng.path
+
+    def sym(x):
+        return S.term(x.sym) if isinstance(x, Scalar) else None
+
+    zero = Lin.const(0)
+    if p == "core::ops::range::RangeFrom":
+        st, en = sym(f[0]), ln
+    elif p == "core::ops::range::RangeTo":
+        st, en = zero, sym(f[0])
+    elif p == "core::ops::range::Range":
+        st, en = sym(f[0]), sym(f[1])
+    elif p == "core::ops::range::RangeFull":
+        st, en = zero, ln
+    else:
+        return ctx.top_ret()
+    if st is None or en is None:
+        return ctx.top_ret()
+    conds = [st.sub(en), en.sub(ln)]  # start <= end, end <= len
+    if all(S.entails(c) for c in conds):
+        can_none, can_some = False, True
+    elif any(S.entails(c.scale(-1).addc(1)) for c in conds):
+        can_none, can_some = True, False
+    else:
+        can_none = can_some = True
+    out = sub_seq(ctx, v, en.sub(st), "gr")
+    if not st.t and st.c == 0 and p != "core::ops::range::RangeFull":
+        out = with_tags(out, notify_read(ctx, v, en, None, out, None))
+    elif p == "core::ops::range::RangeFrom":
+        notify_rest(ctx, v, out)
+    vs, w = {}, {}
+    if can_none:
+        vs["None"] = ()
+    if can_some:
+        vs["Some"] = (derived(ctx, out, "gs"),)
+        w["Some"] = Delta({}, conds)
+    return Enum(OPT, vs, w)
+
+
+@M.reg("core::slice::<impl [T]>::split_at")
+def m_split_at(ctx):
+    S = ctx.S
+    v, ref = seq_of(ctx, ctx.args[0])
+    n = scalar_arg(ctx, ctx.args[1])
+    ln = len_sym(ctx, v)
+    if n is None:
+        ctx.pre("split_at mid <= len", False)
+        return ctx.top_ret()
+    d = S.term(n).sub(S.term(ln))
+    ctx.pre("split_at mid <= len", S.entails(d))
+    S.add_fact(d)
+    head = sub_seq(ctx, v, S.term(n), "head")
+    tail = sub_seq(ctx, v, S.term(ln).sub(S.term(n)), "tail")
+    head = with_tags(head, notify_read(ctx, v, S.term(n), None, head, tail))
+    return Struct("tuple", [derived(ctx, head, "h"), derived(ctx, tail, "t")])
 
 
 def sub_seq(ctx, v, new_len_lin, tag):
@@ -249,7 +314,7 @@ def m_split_at_checked(ctx):
     T = S  # build the Some payload under the assumption n <= len (lengths stay non-negative)
     head = sub_seq(ctx, v, S.term(n), "head")
     tail = sub_seq(ctx, v, S.term(ln).sub(S.term(n)), "tail")
-    head = with_tags(head, [h("cursor_read", interp=ctx.I, ctx=ctx, source=v, count=n, const_count=None, head=head, tail=tail) for h in ctx.I.hooks])
+    head = with_tags(head, notify_read(ctx, v, S.term(n), None, head, tail))
     pair = Struct("tuple", [derived(ctx, head, "h"), derived(ctx, tail, "t")])
     vs, w = {}, {}
     if can_none:
@@ -259,6 +324,16 @@ def m_split_at_checked(ctx):
         vs["Some"] = (pair,)
         w["Some"] = Delta({}, [d])
     return Enum(OPT, vs, w)
+
+
+def notify_read(ctx, v, count_lin, const_count, head, tail):
+    """Tell observers that a prefix of `v` (count bytes) is split off / viewed; they may return provenance tags."""
+    return [h("cursor_read", interp=ctx.I, ctx=ctx, source=v, count_lin=count_lin, const_count=const_count, head=head, tail=tail) for h in ctx.I.hooks]
+
+
+def notify_rest(ctx, v, rest):
+    for h in ctx.I.hooks:
+        h("cursor_rest", interp=ctx.I, ctx=ctx, source=v, rest=rest)
 
 
 def with_tags(v, tags):
@@ -300,7 +375,7 @@ def m_split_first_chunk(ctx):
     tail = sub_seq(ctx, v, S.term(ln).addc(-n), "tail")
     if isinstance(tail, Seq):
         tail = Seq(tail.kind, tail.len, tail.elem, tail.efacts, tail.data, bump_skip(tail.prov, n))
-    tagged = with_tags(v, [h("cursor_read", interp=ctx.I, ctx=ctx, source=v, count=None, const_count=n, head=None, tail=tail) for h in ctx.I.hooks])
+    tagged = with_tags(v, notify_read(ctx, v, Lin.const(n), n, None, tail))
     head = arr_of_fresh(ctx, tagged, n, "fc")
     pair = Struct("tuple", [derived(ctx, head, "h"), derived(ctx, tail, "t")])
     vs, w = {}, {}
@@ -322,7 +397,8 @@ def m_first_chunk(ctx):
     d = Lin.const(n).sub(S.term(ln))
     can_some = not S.entails(d.scale(-1).addc(1))
     can_none = not S.entails(d)
-    head = derived(ctx, arr_of_fresh(ctx, v, n, "fc"), "h")
+    tagged = with_tags(v, notify_read(ctx, v, Lin.const(n), n, None, None)) if isinstance(v, Seq) else v
+    head = derived(ctx, arr_of_fresh(ctx, tagged, n, "fc"), "h")
     vs, w = {}, {}
     if can_none:
         vs["None"] = ()
@@ -387,7 +463,9 @@ def range_index(ctx, v, rng_val, what):
         if st is None:
             return None
         S.add_fact(st.sub(ln))
-        return sub_seq(ctx, v, ln.sub(st), "rf")
+        out = sub_seq(ctx, v, ln.sub(st), "rf")
+        notify_rest(ctx, v, out)
+        return out
     if p == "core::ops::range::Range":
         st, en = sym(f[0]), sym(f[1])
         ok = st is not None and en is not None and S.entails(st.sub(en)) and S.entails(en.sub(ln))
@@ -396,7 +474,10 @@ def range_index(ctx, v, rng_val, what):
             return None
         S.add_fact(st.sub(en))
         S.add_fact(en.sub(ln))
-        return sub_seq(ctx, v, en.sub(st), "rr")
+        out = sub_seq(ctx, v, en.sub(st), "rr")
+        if not st.t and st.c == 0:
+            out = with_tags(out, notify_read(ctx, v, en, None, out, None))
+        return out
     if p == "core::ops::range::RangeTo":
         en = sym(f[0])
         ok = en is not None and S.entails(en.sub(ln))
@@ -404,7 +485,8 @@ def range_index(ctx, v, rng_val, what):
         if en is None:
             return None
         S.add_fact(en.sub(ln))
-        return sub_seq(ctx, v, en, "rt")
+        out = sub_seq(ctx, v, en, "rt")
+        return with_tags(out, notify_read(ctx, v, en, None, out, None))
     if p == "core::ops::range::RangeFull":
         return as_seq(ctx, v)
     ctx.pre(what + " (unsupported index type %s)" % p, False)
